@@ -9,6 +9,7 @@ import (
 	"encoding/json"
 	"errors"
 	"fmt"
+	"strconv"
 
 	internaljson "github.com/modelcontextprotocol/go-sdk/internal/json"
 )
@@ -194,6 +195,20 @@ func DecodeMessage(data []byte) (Message, error) {
 	id, err := MakeID(msg.ID)
 	if err != nil {
 		return nil, err
+	}
+	if f, ok := msg.ID.(float64); ok && (f >= 1<<53 || f <= -(1<<53)) {
+		// float64 cannot represent every integer of this magnitude, so the
+		// conversion in MakeID may have altered the ID (or overflowed int64).
+		// Recover the exact value from the wire form, so that the ID echoed in
+		// the response is the one the peer sent.
+		var exact struct {
+			ID json.RawMessage `json:"id"`
+		}
+		if err := internaljson.Unmarshal(data, &exact); err == nil {
+			if n, err := strconv.ParseInt(string(bytes.TrimSpace(exact.ID)), 10, 64); err == nil {
+				id = Int64ID(n)
+			}
+		}
 	}
 	if len(msg.Method) > 0 {
 		// The "method" key was present. Decode its value (including "").
